@@ -511,6 +511,13 @@ class _Gen(object):
             return r.choice(['abs(%s)', 'int(%s)', 'max(%s, 1)', 'len(l) + %s']) % self.iexpr(depth - 1)
         if c < 0.86:
             self.features.add('usercall')
+            if r.random() < 0.3:
+                # starred / double-starred argument forms (the only positional argument starred, mixed, keyword splat),
+                # with list, tuple and iterator operands, on plain, partial and bound-method callees
+                self.features.add('star_args'); self.uses_obj = True
+                e = self.iexpr(depth - 1)
+                return r.choice(['h(*[%s])', 'hp(*[%s])', 'h2(*[%s, 2])', 'h2(*(%s,), v=2)', 'hp(*iter([%s]))', 'h2(%s, *[1])',
+                                 "h2(%s, **{'v': 2})", 'o.m(*[%s])', 'max(*[%s, 1])', 'hp(*(%s,))']) % e
             return r.choice(['h(%s)', 'h2(%s)', 'h2(%s, v=2)', 'hp(%s)']) % self.iexpr(depth - 1)
         if c < 0.90:
             self.features.add('method'); self.uses_obj = True
@@ -550,6 +557,14 @@ class _Gen(object):
             return '(not %s)' % self.bexpr(depth - 1)
         if c < 0.85:
             self.features.add('chained_compare')
+            if r.random() < 0.4:
+                # longer chains over atoms (no effectful middle operand): every link must be kept, in order
+                self.features.add('long_compare_chain')
+                k = r.randrange(3, 5)
+                parts = [self.iexpr(0)]
+                for _ in range(k):
+                    parts += [r.choice(['<', '<=', '==', '!=', '>', '>=']), self.iexpr(0)]
+                return ' '.join(parts)
             return '%s < %s <= %s' % (self.iexpr(0), self.iexpr(depth - 1), self.iexpr(0))
         if c < 0.93:
             return 'd()'
